@@ -12,6 +12,7 @@ from sa.astutil import (anorm, call_name, calls_in, dotted, norm, walk_no_nested
                         func_params, enclosing_loops)
 from sa.loader import AnalysisError
 from checks.c06 import walk_with_lambdas
+from checks import common
 
 AXES = ('x', 'y', 'z')
 SCALAR_FUNCS = ('math.sqrt', 'abs', 'float', 'len', 'math.pow', 'int')
@@ -449,6 +450,17 @@ def run(ctx):
     prog = ctx.prog
     cg = callgraph.build(prog)
     reach = cg.reachable(callgraph.ENTRY_POINTS, callgraph.versionA_exclude)
+
+    # ------------------------------------------------------------------ R4
+    # every translate of a structure inside the PDB coordinate range must parse:
+    # coordinates are fixed-width fields that may touch each other
+    common.check_fixed_columns(ctx, 'C04.R4', prog, ['x', 'y', 'z'])
+
+    # ------------------------------------------------------------------ R5
+    # the spatial hashing of the bond search: a pair within bonding distance is
+    # examined wherever the cell boundaries fall (same rules as C11.R1-R3)
+    from checks import c11
+    c11.cell_list(ctx, lambda name: 'C04.R5')
 
     # ------------------------------------------------------------------ R1
     n_reads = 0
